@@ -4,3 +4,50 @@
 //! verification harness in `/verif/harness` using plain data types only. Nothing here is
 //! compiled unless the feature is enabled.
 #![allow(missing_docs, dead_code, clippy::all)]
+
+use std::path::Path;
+
+/// WAL component access (C12): real `Wal`, `Reader`, `repair_corrupted_wal_segment`.
+pub mod wal {
+	use super::*;
+	use crate::wal::manager::Wal;
+	use crate::wal::reader::Reader;
+	use crate::wal::recovery::repair_corrupted_wal_segment;
+	use crate::wal::{Error as WalError, Options};
+
+	/// One writer session on `dir`: open (appending to the highest existing segment),
+	/// append every record, close.
+	pub fn append_session(dir: &Path, records: &[Vec<u8>]) -> std::result::Result<(), String> {
+		let mut wal = Wal::open(dir, Options::default()).map_err(|e| e.to_string())?;
+		for r in records {
+			wal.append(r).map_err(|e| e.to_string())?;
+		}
+		wal.close().map_err(|e| e.to_string())
+	}
+
+	/// Reads every record of the segment file until end-of-log or the first error.
+	/// Returns the records and `"eof"` / `"corrupt"` / `"other:<msg>"`.
+	pub fn read_all(path: &Path) -> (Vec<Vec<u8>>, String) {
+		let file = match std::fs::File::open(path) {
+			Ok(f) => f,
+			Err(e) => return (vec![], format!("other:{e}")),
+		};
+		let mut reader = Reader::new(file);
+		let mut out = Vec::new();
+		loop {
+			match reader.read() {
+				Ok((rec, _off)) => out.push(rec.to_vec()),
+				Err(WalError::Corruption(_)) => return (out, "corrupt".to_string()),
+				Err(WalError::IO(e)) if e.kind() == std::io::ErrorKind::UnexpectedEof => {
+					return (out, "eof".to_string())
+				}
+				Err(e) => return (out, format!("other:{e}")),
+			}
+		}
+	}
+
+	/// Runs the real segment repair.
+	pub fn repair(dir: &Path, segment_id: usize) -> std::result::Result<(), String> {
+		repair_corrupted_wal_segment(dir, segment_id).map_err(|e| e.to_string())
+	}
+}
